@@ -100,13 +100,15 @@ Expect(W) ==
      upward |-> IF "local" \in W.f THEN "refused" ELSE "allowed",
      parent |-> IF Nav(W, <<"parent", <<>>>>) = REFUSED THEN "refused" ELSE "allowed"]
 
-CSeq == SetToSeq(AllChains)
-Cases == [k \in 1..(((Len(CSeq) - 1) \div Stride) + 1) |->
-            LET ch == CSeq[(k - 1) * Stride + 1] IN
+Export ==
+    /\ TLCGet("stats").generated >= 0
+    /\ LET cs == SetToSeq(AllChains) n == Len(cs) IN
+       JsonSerialize(IOEnv.OUT_FILE,
+         [k \in 1..(((n - 1) \div Stride) + 1) |->
+            LET ch == cs[(k - 1) * Stride + 1] IN
             [steps |-> ch.steps,
              nodes |-> [j \in DOMAIN ch.states |-> ch.states[j].n],
              flags |-> [j \in DOMAIN ch.states |-> SetToSeq(ch.states[j].f)],
              expect |-> IF ch.states[Len(ch.states)] = REFUSED THEN [mutate |-> "-", read |-> "-", upward |-> "-", parent |-> "-"]
-                        ELSE Expect(ch.states[Len(ch.states)])]]
-Export == TLCGet("stats").generated >= 0 /\ JsonSerialize(IOEnv.OUT_FILE, Cases)
+                        ELSE Expect(ch.states[Len(ch.states)])]])
 =============================================================================
